@@ -347,8 +347,14 @@ func (w *relWorld) step(rb RelBlock) ([]relTxResult, *world.TwinResult, *Failure
 					body = f.bodyConsolidation()
 				}
 			}
-			msg = body.msg(rv.Proposer, h.votes)
-			res.voted, res.body, res.votes, res.reason = true, &body, h.votes, "vote-reused"
+			reused := h.votes
+			if abs(rt.Ref)%2 == 1 {
+				// the same bitmap and signature with the sequence and epoch fields rewritten to the current values
+				reused = &relayertypes.Votes{Sequence: seqNow, Epoch: rv.Epoch, Voters: h.votes.Voters, Signature: h.votes.Signature}
+				w.nt["reuse-relabelled"] = true
+			}
+			msg = body.msg(rv.Proposer, reused)
+			res.voted, res.body, res.votes, res.reason = true, &body, reused, "vote-reused"
 			w.nt["reuse"] = true
 		case "postfail":
 			// a genuine vote over a body that fails after the signature check
